@@ -501,3 +501,11 @@ Example json_reader_example :
           44; 10; 45; 48; 93; 125; 10]
   = Some (JObj [([128512], JArr [JNum (mkd false [1; 5] 2); JNum dzero])]).
 Proof. vm_compute. reflexivity. Qed.
+
+(* consequently the serialiser is injective: different documents have different texts *)
+Corollary jser_injective : forall v w, wfj v = true -> wfj w = true -> (jdepth v < depth_limit)%nat -> (jdepth w < depth_limit)%nat ->
+  jser v = jser w -> v = w.
+Proof.
+  intros v w Hv Hw Dv Dw H. pose proof (json_roundtrip v Hv Dv) as R1. pose proof (json_roundtrip w Hw Dw) as R2.
+  rewrite H in R1. rewrite R1 in R2. inversion R2. reflexivity.
+Qed.
